@@ -491,6 +491,7 @@ func ruleAttrExhaustive(c *Ctx) {
 // C03 historic-root
 
 func ruleHistoricRoot(c *Ctx) {
+	ruleStoragePrefixAgreement(c)
 	fd := c.P.Func("pkg/core", "Blockchain", "GetTestHistoricVM")
 	if fd == nil {
 		c.Lost("anchor", "GetTestHistoricVM not found")
